@@ -120,3 +120,64 @@ Proof.
   intros x H. simpl in H. repeat (destruct H as [<- | H]; [qc|]). contradiction.
 Qed.
 Print Assumptions zero_rate_boundary_refuted.
+
+(** ** Handler glue (Model/CellVeto.v: CellVetoEventHandler.send_event_time on binary64, tied to the code by a
+    bit-exact correspondence evaluated in Coq, harness/c18_glue.py).  Vocabulary (JF.Proofs.CellVetoProofs):
+    [cv_walker d cf] / [cv_factor cf]: the walker and |charge factor| chosen from the sign of the charge correction
+    factor; [value] / [normalised]: exact value and normal form of a time stamp (JF.Proofs.TimeProofs). *)
+From Coq Require Import Reals Lra.
+From Flocq Require Import Core.Core IEEE754.BinarySingleNaN.
+Require Import JF.Base.F64 JF.Model.Time JF.Model.CellIndex JF.Model.CellVeto.
+Require Import JF.Proofs.F64Facts JF.Proofs.TimeProofs JF.Proofs.CellIndexProofs JF.Proofs.CellVetoProofs.
+
+(** The candidate event time [stamp + Exp / (total * |factor| * speed)] is a normalised time stamp that is not
+    before the active unit's time stamp, for every finite non-negative displacement (C14's add_never_decreases). *)
+Theorem event_time_not_before_stamp : forall ns seps d active stamp speed cf row u e t off target ber,
+  cv_send_event_time ns seps d active stamp speed cf row u e = CVOk t off target ber ->
+  let dsp := cv_displacement e (fst (fst (cv_walker d cf))) (cv_factor cf) speed in
+  normalised stamp -> (0 <= B2R (tq stamp))%R -> ffinite dsp = true -> (0 <= B2R dsp)%R ->
+  (B2R (tq stamp) + IZR (Zfloor (RN (B2R (tr stamp) + B2R dsp))) <= bpow radix2 53)%R ->
+  (value stamp <= value t)%R /\ normalised t.
+Proof. exact CellVetoProofs.event_time_not_before_stamp. Qed.
+Print Assumptions event_time_not_before_stamp.
+
+Definition cv_dir_ex : cvdir :=
+  mkDir [(f_05, f_025); (f_05, fzero)]
+        (fone, f_05, [((1%nat, f_05), None); ((0%nat, f_05), None)])
+        (f_025, of_bits 0x3FC0000000000000, [((1%nat, fzero), Some (0%nat, of_bits 0x3FC0000000000000)); ((0%nat, of_bits 0x3FC0000000000000), None)]).
+
+Example event_time_not_before_stamp_nonvacuous :
+  let dsp := cv_displacement f_05 (fst (fst (cv_walker cv_dir_ex fone))) (cv_factor fone) fone in
+  (exists t off target ber,
+     cv_send_event_time [4; 5]%Z [[2; 0]; [2; 3]]%Z cv_dir_ex [3; 4]%Z sample_b fone fone 0 f_05 f_05 = CVOk t off target ber) /\
+  normalised sample_b /\ (0 <= B2R (tq sample_b))%R /\ ffinite dsp = true /\ (0 <= B2R dsp)%R /\
+  (B2R (tq sample_b) + IZR (Zfloor (RN (B2R (tr sample_b) + B2R dsp))) <= bpow radix2 53)%R.
+Proof.
+  intros dsp. destruct sample_add_hyps as (N & F & P & Q & H).
+  assert (E : B2R dsp = B2R f_05) by (apply feqb_bits_B2R; vm_compute; reflexivity).
+  split; [|split; [exact N|split; [exact Q|split; [vm_compute; reflexivity|split]]]].
+  - apply cv_is_ok_ex. vm_compute. reflexivity.
+  - rewrite E. exact P.
+  - rewrite E. exact H.
+Qed.
+
+(** The proposed target cell is the active cell translated by the sampled offset (a valid cell, and the offset is
+    recovered as relative_cell(target, active)); the bound used for the confirmation is the one stored for that
+    offset, entry 0 (upper) for a positive charge factor and entry 1 (minus lower) otherwise, times |factor|,
+    and it is positive. *)
+Theorem target_cell_is_translate : forall ns seps d active stamp speed cf row u e t off target ber,
+  cv_send_event_time ns seps d active stamp speed cf row u e = CVOk t off target ber ->
+  exists rel b, nth_error seps off = Some rel /\ nth_error (d_bounds d) off = Some b /\
+    target = translate ns active rel /\
+    (valid ns active -> valid ns rel -> valid ns target /\ relative ns target active = rel) /\
+    ber = fmul (bound_at b (if fgt cf fzero then 0 else 1)%nat) (if fgt cf fzero then cf else fmul cf (fopp fone)) /\
+    fgt ber fzero = true.
+Proof. exact CellVetoProofs.target_and_bound. Qed.
+Print Assumptions target_cell_is_translate.
+
+Example target_cell_is_translate_nonvacuous :
+  (exists t off ber,
+     cv_send_event_time [4; 5]%Z [[2; 0]; [2; 3]]%Z cv_dir_ex [3; 4]%Z sample_b fone (fopp fone) 0 fone f_05
+     = CVOk t off [1; 4]%Z ber) /\
+  validb [4; 5]%Z [3; 4]%Z = true /\ validb [4; 5]%Z [2; 0]%Z = true.
+Proof. split; [apply cv_target_is_ex; vm_compute; reflexivity | split; vm_compute; reflexivity]. Qed.
